@@ -37,11 +37,63 @@ fn deliver(u: &mut U, app: &Address, chain: &[u8], id: &[u8], src: &[u8], payloa
     })
 }
 
+/// Applications wired to a stand-in gateway that answers `validate_message` with a configurable
+/// value: they may act only when the answer is the boolean true.
+fn standin_gateway(rep: &mut Report) {
+    use crate::probes::pgateway::{ProbeGateway, ProbeGatewayClient};
+    use soroban_sdk::{IntoVal, Val};
+    let mut u = U::new();
+    let dummy = u.principal();
+    let pg = u.env.register(ProbeGateway, ());
+    let example = u.env.register(Example, (&pg, &dummy));
+    let mini = u.env.register(MiniApp, (&pg,));
+    u.skip_events();
+    let env = u.env.clone();
+    let answers: Vec<(&str, Val)> = vec![
+        ("bool-true", true.into_val(&env)),
+        ("bool-false", false.into_val(&env)),
+        ("void", Val::VOID.to_val()),
+        ("u32-0", 0u32.into_val(&env)),
+        ("u32-1", 1u32.into_val(&env)),
+        ("string-true", sstr(&env, b"true").to_val()),
+    ];
+    for (app_name, app, effect_kind) in [("example", example, "executed"), ("miniapp", mini, "mini_executed")] {
+        for (class, v) in &answers {
+            let ck = u.checkpoint();
+            let (pg2, v2) = (pg.clone(), *v);
+            u.setup(move |env| ProbeGatewayClient::new(env, &pg2).set_answer(&v2));
+            u.skip_events();
+            let o = deliver(&mut u, &app, b"Ethereum-X", b"m-1", b"0xsrc", b"payload");
+            let effects = o.events.iter().filter(|e| e.kind() == effect_kind).count();
+            rep.count(&format!("standin-gateway-answer:{}", class));
+            rep.eval("standin-gateway", &format!("standin|{}|{}|{}", app_name, class, o.ok()), true);
+            rep.step(format!("{}: stand-in gateway answers {} -> ok={} effects={}", app_name, class, o.ok(), effects));
+            let leak = o.leak.clone();
+            u.restore(&ck);
+            if let Some(l) = leak {
+                rep.violation("failed-delivery-left-trace:standin-gateway", l);
+                return;
+            }
+            let want = *class == "bool-true";
+            if o.ok() != want || effects != usize::from(want) {
+                rep.violation(
+                    &format!("standin-gateway:{}:{}:{}", app_name, class, if o.ok() { "accepted" } else { "refused" }),
+                    format!("the gateway answered {} to validate_message; {}'s execute -> ok={}, {} effect events", class, app_name, o.ok(), effects),
+                );
+                return;
+            }
+        }
+    }
+}
+
 pub fn run(ctx: &Ctx, rep: &mut Report) {
     let total = ctx.universes(1000, 40000);
     for uni in ctx.my_universes(total) {
         let mut rng = ctx.rng_for(uni);
         rep.begin_universe(uni);
+        if uni % 10 == 0 {
+            standin_gateway(rep);
+        }
         let mut u = U::new();
         let mut ring = KeyRing::default();
         let owner = u.principal();
